@@ -397,6 +397,7 @@ def run(ctx):
     # threads (controlled scheduler)
     from checks import c03_sched
     ctx.require('emit_race_schedules', 50)
+    ctx.require('self_race_schedules', 20)
     c03_sched.run_part(ctx, (ctx.budget or 30) * 0.2)
     k = 0
     while not ctx.out_of_time() and not ctx.too_many_violations():
@@ -406,7 +407,7 @@ def run(ctx):
 
 
 def replay(ctx, w):
-    if w['witness'].get('part') == 'emit_race':
+    if w['witness'].get('part') in ('emit_race', 'self_race'):
         from checks import c03_sched
         return c03_sched.replay(ctx, w)
     run_case(ctx, w['witness']['case_index'])
